@@ -32,6 +32,7 @@ class World(object):
         s.m = Machine(prog, s.nat, cap)
         s.m.world = s
         s.m.census_spawn = s.census_spawn; s.m.census_join = s.census_join
+        s.m.unwind_mode = bool(scen.get('unwind'))
         s.m.on_thread_exit = s.on_thread_exit
         s.ghost = {}
         s.ops = {}          # opid -> dict(thread, obj, kind, idx)
@@ -112,12 +113,16 @@ class World(object):
             return UNIT
         R('__exit', exit_)
         R('__yield', lambda mm, th, a, g: UNIT, visible=True)
+        R('__panic', lambda mm, th, a, g: PANIC)
         def gate_en(mm, th, a, ph, g): return s.ghost.get('gate%d' % a[0].val, FALSE)
         R('__gate_wait', lambda mm, th, a, g: UNIT, visible=True, enabled=gate_en)
         def await_all_en(mm, th, a, ph, g):
             out = TRUE
+            after = getattr(th, 'after', None)
             for t in mm.threads:
-                if t.role == 'caller' and t is not th and not t.final: out = And(out, t.finished)
+                if after is not None:
+                    if t.name in after: out = And(out, Or(t.finished, t.dead))
+                elif t.role == 'caller' and t is not th and not t.final: out = And(out, Or(t.finished, t.dead))
             return out
         R('__await_callers', lambda mm, th, a, g: UNIT, visible=True, enabled=await_all_en)
         # ---- futures side of the harness
@@ -158,6 +163,12 @@ class World(object):
                 s.gset('polled_pending%d' % opk, TRUE, pend, FALSE)
             return En(POLL, Ite(opened, ZERO, ONE), {0: St(None, {0: tok})})
         R('__gate_poll', gate_poll, visible=True)
+        def gate_mode(mm, th, a, g):
+            pin = a[0]; r = pin.f[0] if isinstance(pin, St) and pin.ty == 'Pin' else pin
+            fut = mm.load(r, g)
+            if not isinstance(fut, St) or 0 not in fut.f or fut.f[0].op != 'c': return ZERO
+            return BV({97: 1, 98: 2}.get(fut.f[0].val, 0))
+        R('__gate_mode', gate_mode)
         def gatefut_drop(mm, th, a, g):
             fut = mm.load(a[0], g)
             if not isinstance(fut, St): return UNIT
@@ -284,13 +295,13 @@ class World(object):
             loc = [20]; futvars = {}; resvars = {}; dvars = {}
             def fresh():
                 loc[0] += 1; return loc[0]
-            if th.get('final'):
+            if th.get('final') or th.get('after'):
                 emit([], '_%d = __await_callers() -> [return: bb%d, unwind continue]' % (fresh(), len(blocks) + 1))
             for oi, op in enumerate(th['ops']):
                 kind = op[0]
                 if kind in ('sync', 'desync', 'try_sync'):
                     q = op[1]; body = op[2] if len(op) > 2 else {}
-                    s.ops[opid] = dict(thread=name, tid=None, obj=q, kind=kind, idx=oi, opid=opid, tindex=ti, probe=bool(body.get('probe')), gated=any(isinstance(x, tuple) and x[0] == 'gate' for x in body.get('acts', [])))
+                    s.ops[opid] = dict(thread=name, tid=None, obj=q, kind=kind, idx=oi, opid=opid, tindex=ti, probe=bool(body.get('probe')), must_panic=bool(body.get('must_panic')), panics=('panic' in body.get('acts', []) or body.get('fut') in ('panic', 'wake_panic')), gated=any(isinstance(x, tuple) and x[0] == 'gate' for x in body.get('acts', [])))
                     cl = 'scen:%s:%d' % (name, oi)
                     c = fresh(); r = fresh(); x = fresh(); y = fresh()
                     tok = 40 + opid
@@ -313,8 +324,8 @@ class World(object):
                 elif kind in ('future_desync', 'future_sync'):
                     q = op[1]; body = op[2] if len(op) > 2 else {}
                     fk = body.get('fut', 'ready')
-                    s.ops[opid] = dict(thread=name, tid=None, obj=q, kind=kind, idx=oi, opid=opid, tindex=ti, probe=False,
-                                       gated=isinstance(fk, tuple), var=body.get('as', 'f%d' % opid), tok=40 + opid)
+                    s.ops[opid] = dict(thread=name, tid=None, obj=q, kind=kind, idx=oi, opid=opid, tindex=ti, probe=False, panics=fk in ('panic', 'wake_panic'),
+                                       must_panic=bool(body.get('must_panic')), gated=isinstance(fk, tuple), var=body.get('as', 'f%d' % opid), tok=40 + opid)
                     cl = 'scen:%s:%d' % (name, oi)
                     T.append(s.future_closure(name, oi, cl, q, opid, fk, 40 + opid))
                     c = fresh(); y = fresh(); fv = fresh(); x = fresh()
@@ -422,10 +433,25 @@ class World(object):
             s.thread_specs.append((name, 'scen::thread_%s' % name, th))
         T.append('''fn scen::GateFut::poll(_1: Pin<&mut GateFut>, _2: &mut Context<'_>) -> Poll<u32> {
     bb0: {
-        _0 = __gate_poll(copy _1, copy _2) -> [return: bb1, unwind continue];
+        _3 = __gate_mode(copy _1) -> [return: bb1, unwind continue];
     }
     bb1: {
+        switchInt(move _3) -> [0: bb2, 1: bb6, otherwise: bb4];
+    }
+    bb2: {
+        _0 = __gate_poll(copy _1, copy _2) -> [return: bb3, unwind continue];
+    }
+    bb3: {
         return;
+    }
+    bb4: {
+        _4 = Context::waker(copy _2) -> [return: bb5, unwind continue];
+    }
+    bb5: {
+        _5 = Waker::wake_by_ref(copy _4) -> [return: bb6, unwind continue];
+    }
+    bb6: {
+        _6 = __panic() -> [return: bb3, unwind continue];
     }
 }
 
@@ -481,7 +507,7 @@ fn scen::GateFut::drop(_1: &mut GateFut) -> () {
         qargs = [Ref.to(s.globals[1 + q]) for q in range(nq)]
         for name, fname, spec in s.thread_specs:
             t = m.add_thread(name, s.prog.byname[fname], qargs)
-            t.role = 'caller'; t.final = bool(spec.get('final'))
+            t.role = 'caller'; t.final = bool(spec.get('final')); t.after = spec.get('after')
         for i in range(sc.get('pool_slots', sc.get('pool_max', 0))):
             t = m.add_thread('P%d' % i, s.prog.byname['scen::pool_main'], [None], started=FALSE)
             t.role = 'pool'; t.is_pool = True; t.pool_index = i
@@ -489,7 +515,7 @@ fn scen::GateFut::drop(_1: &mut GateFut) -> () {
             op['tid'] = [t.tid for t in m.threads if t.name == op['thread']][0]
     def future_closure(s, tname, oi, cl, obj, opid, fk, tok):
         """closure passed to future_desync/future_sync: enters the object and returns the user future (ready, or pending on a gate)"""
-        gate = fk[1] if isinstance(fk, tuple) else 99
+        gate = fk[1] if isinstance(fk, tuple) else {'panic': 97, 'wake_panic': 98}.get(fk, 99)
         return '''fn scen::thread_%s::{closure#%d}(_1: {closure@%s}) -> GateFut {
     bb0: {
         _2 = __enter(const %d_usize, const %d_usize) -> [return: bb1, unwind continue];
@@ -552,6 +578,7 @@ fn scen::GateFut::drop(_1: &mut GateFut) -> () {
             if a == 'enter': call = '__enter(const %d_usize, const %d_usize)' % (obj, opid)
             elif a == 'exit': call = '__exit(const %d_usize, const %d_usize)' % (obj, opid)
             elif a == 'yield': call = '__yield()'
+            elif a == 'panic': call = '__panic()'
             elif a[0] == 'gate': call = '__gate_wait(const %d_usize)' % a[1]
             else: raise EncodeError('job act %r' % (a,))
             L += ['    bb%d: {' % b, '        _%d = %s -> [return: bb%d, unwind continue];' % (5 + b, call, b + 1), '    }']
@@ -620,7 +647,7 @@ fn scen::GateFut::drop(_1: &mut GateFut) -> () {
                 run = Or(run, And(G, en)); blk = Or(blk, And(G, Not(en)))
                 if nat.name.endswith('Receiver::recv') and th.role == 'pool': idle = Or(idle, And(G, Not(en)))
             dead = th.dead
-            s.fin[th.tid] = th.finished; s.runnable[th.tid] = run; s.blocked[th.tid] = Or(blk, dead); s.idle[th.tid] = idle
+            s.fin[th.tid] = Or(th.finished, th.dead); s.runnable[th.tid] = run; s.blocked[th.tid] = Or(blk, dead); s.idle[th.tid] = idle
         callers = [t for t in m.threads if t.role in ('caller', 'waker')]
         pools = [t for t in m.threads if t.role == 'pool']
         norun = And(*[Not(s.runnable[t.tid]) for t in callers + pools])
